@@ -432,6 +432,7 @@ func (s *supARFO) childDisable(name gen.Atom) (supAction, error) {
 		}
 
 		if cs.pid == empty {
+			cs.disabled = true
 			return action, nil
 		}
 
